@@ -30,6 +30,7 @@ func checkC08(w *World, r *Report) {
 	checkC08ParentPairing(w, r)
 	checkC08OneSlashApart(w, r)
 	checkC08CaseAnalysis(w, r)
+	checkTsrParamsRebuilt(w, r, "C08.9")
 }
 
 func checkC08Guards(w *World, r *Report, d *dispatchInfo) {
@@ -1078,4 +1079,63 @@ func evalByteBool(info *types.Info, e ast.Expr, name string, b int64) (bool, boo
 		}
 	}
 	return false, false
+}
+
+// checkTsrParamsRebuilt: the trailing-slash copy of the parameters lives in the pooled context. Where a candidate's
+// parameters are put together with append, the first thing written is the truncation to length 0; an append onto the
+// slice as it is keeps the parameters of an earlier candidate or an earlier request.
+func checkTsrParamsRebuilt(w *World, r *Report, id string) {
+	ru := r.Rule(id, "the trailing-slash parameter copy is rebuilt from empty: in every statement list of the matchers that assigns *c.tsrParams from an append onto *c.tsrParams, the first assignment is the truncation (*c.tsrParams)[:0]", 2)
+	n := 0
+	for _, name := range []string{"lookupByPath", "lookupByDomain"} {
+		af := w.astFuncOf(modulePath, name)
+		ctxName := ""
+		for _, f := range af.decl.Type.Params.List {
+			if st, ok := f.Type.(*ast.StarExpr); ok {
+				if idn, ok := st.X.(*ast.Ident); ok && idn.Name == "cTx" {
+					ctxName = f.Names[0].Name
+				}
+			}
+		}
+		target := "*" + ctxName + ".tsrParams"
+		ast.Inspect(af.decl.Body, func(nd ast.Node) bool {
+			blk, ok := nd.(*ast.BlockStmt)
+			if !ok {
+				return true
+			}
+			var first *ast.AssignStmt
+			appendsOnto := false
+			for _, st := range blk.List {
+				as, ok := st.(*ast.AssignStmt)
+				if !ok || len(as.Lhs) != 1 || exprStr(as.Lhs[0]) != target {
+					continue
+				}
+				if first == nil {
+					first = as
+				}
+				// innermost base of an append chain
+				e := as.Rhs[0]
+				for {
+					call, ok := e.(*ast.CallExpr)
+					if !ok || exprStr(call.Fun) != "append" || len(call.Args) == 0 {
+						break
+					}
+					e = call.Args[0]
+				}
+				if e != as.Rhs[0] && exprStr(e) == target {
+					appendsOnto = true
+				}
+			}
+			if first == nil || !appendsOnto {
+				return true
+			}
+			n++
+			okk := exprStr(first.Rhs[0]) == "("+target+")[:0]"
+			ru.Check("tsrParams assembled in "+name, w.Pos(first.Pos()), "starts with "+target+" = ("+target+")[:0]", okk, orDefault(map[bool]string{true: "truncated first"}[okk], "the first assignment is "+exprStr(first.Rhs[0])+": parameters already in the pooled slice are kept in front of the candidate's"))
+			return true
+		})
+	}
+	if n == 0 {
+		r.Unrecognised("%s: no append-built trailing-slash parameter copy found in the matchers", id)
+	}
 }
